@@ -455,6 +455,9 @@ func DominatingConds(b *ssa.BasicBlock) []Cond {
 // been reached, which adds that block's dominating conditions.
 func expandCond(c Cond, depth int) []Cond {
 	out := []Cond{c}
+	if depth <= 2 {
+		out = append(out, expandHelperCond(c, depth)...)
+	}
 	phi, ok := c.V.(*ssa.Phi)
 	if !ok || depth > 4 {
 		return out
@@ -1305,4 +1308,42 @@ func FreeVarBoundTo(parent *ssa.Function, cl *ssa.Function, fv *ssa.FreeVar, v s
 		}
 	})
 	return found
+}
+
+// expandHelperCond looks through a small boolean helper of the repository
+// used as a condition (an extracted predicate): if the helper has a single
+// return whose value is a condition, that condition holds with the same
+// polarity; if the only way to return true (false) is one site, the conditions
+// dominating that site hold, too. The returned conditions are expressed in the
+// helper's own SSA values (parameters instead of arguments).
+func expandHelperCond(c Cond, depth int) []Cond {
+	call, ok := c.V.(*ssa.Call)
+	if !ok {
+		return nil
+	}
+	f := call.Common().StaticCallee()
+	if f == nil || !IsRepo(f) || f.Blocks == nil || len(f.Blocks) > 16 {
+		return nil
+	}
+	if bt, ok := call.Type().Underlying().(*types.Basic); !ok || bt.Kind() != types.Bool {
+		return nil
+	}
+	rvs := ReturnValues(f, 0)
+	var out []Cond
+	var sites []RetVal
+	for _, rv := range rvs {
+		if IsBoolConst(rv.V, !c.True) {
+			continue // cannot produce the required outcome
+		}
+		sites = append(sites, rv)
+	}
+	if len(sites) != 1 {
+		return nil
+	}
+	rv := sites[0]
+	if !IsBoolConst(rv.V, c.True) {
+		out = append(out, expandCond(normCond(Cond{V: rv.V, True: c.True, If: c.If}), depth+1)...)
+	}
+	out = append(out, DominatingConds(rv.At.Block())...)
+	return out
 }
